@@ -299,6 +299,168 @@ def t3_constructs(c1: int, has: bool, b1: bool, b2: bool, b3: bool, L: int, dept
     return render_one(P('r'), s, b1, b2, b3, L, depth)
 
 
+# ---------------------------------------------------------------------------------------- T4
+# Rendering phase on REAL tokens: a concrete skeleton is parsed natively (outside the tracer: nothing in it is
+# symbolic), then ONE string attribute of one token is replaced by a symbolic string the parser can deliver for
+# that attribute, and the document is rendered symbolically.  Much cheaper than T3 (no block phase over symbolic
+# lines), so every bundled renderer sees k = 2 symbolic characters in every attribute in the quick tier.
+
+_PUNCT = '!"#$%&\'()*+,-./:;<=>?@[\\]^_`{|}~'
+
+
+def _esc(w):
+    return ''.join(('\\' + c) if c in _PUNCT else c for c in w)
+
+
+def _nospace(w):
+    for c in w:
+        if c.isspace():
+            return False
+    return True
+
+
+def _no(w, chars):
+    for c in w:
+        if c in chars:
+            return False
+    return True
+
+
+def _set_text(t, w):
+    t.content = 'a' + w + 'b'
+
+
+def _set_fence_language(t, w):
+    t.language = w
+    t.info_string = w
+
+
+def _set_autolink(t, w):
+    t.target = 'http://a' + w
+    t.children[0].content = 'http://a' + w
+    t.mailto = '@' in w
+
+
+# name -> (skeleton, path to the token, setter, what the parser can deliver, texts that deliver it)
+T4_HOLES = {
+    'text': ('a x b\n', (0, 0), _set_text, lambda w: _no(w, '\n'), lambda w: ['a' + _esc(w) + 'b\n', 'a' + w + 'b\n']),
+    'heading-text': ('# a x b\n', (0, 0), _set_text, lambda w: _no(w, '\n'), lambda w: ['# a' + _esc(w) + 'b\n', '# a' + w + 'b\n']),
+    'item-text': ('- a x b\n- c\n', (0, 0, 0, 0), _set_text, lambda w: _no(w, '\n'), lambda w: ['- a' + _esc(w) + 'b\n- c\n', '- a' + w + 'b\n- c\n']),
+    'cell-text': ('|a x b|c|\n|-|-|\n|d|e|\n', (0, 0, 0, 0), _set_text, lambda w: _no(w, '\n'),
+                  lambda w: ['|a' + _esc(w) + 'b|c|\n|-|-|\n|d|e|\n', '|a' + w.replace('|', '\\|') + 'b|c|\n|-|-|\n|d|e|\n']),
+    'quote-text': ('> a x b\n', (0, 0, 0), _set_text, lambda w: _no(w, '\n'), lambda w: ['> a' + _esc(w) + 'b\n', '> a' + w + 'b\n']),
+    'emphasis-text': ('*a x b* **c**\n', (0, 0, 0), _set_text, lambda w: _no(w, '\n'), lambda w: ['*a' + _esc(w) + 'b* **c**\n', '*a' + w + 'b* **c**\n']),
+    'fence-language': ('~~~py\nx\n~~~\n', (0,), _set_fence_language, lambda w: _nospace(w) and _no(w, '\\') and w[:1] != '~',
+                       lambda w: ['~~~' + w + '\nx\n~~~\n']),
+    'fence-content': ('~~~py\nx\n~~~\n', (0, 0), lambda t, w: setattr(t, 'content', w + '\n'), lambda w: _no(w, '\n'), lambda w: ['~~~py\n' + w + '\n~~~\n']),
+    'indented-content': ('    x\n', (0, 0), lambda t, w: setattr(t, 'content', 'x' + w + '\n'), lambda w: _no(w, '\n'), lambda w: ['    x' + w + '\n']),
+    'code-span': ('a `x` b\n', (0, 1, 0), lambda t, w: setattr(t, 'content', 'x' + w), lambda w: _no(w, '`\n'), lambda w: ['a `x' + w + '` b\n', 'a ``x' + w + '`` b\n']),
+    'link-target': ('[a](</u> "t")\n', (0, 0), lambda t, w: setattr(t, 'target', w), lambda w: _no(w, '\n'), lambda w: ['[a](<' + _esc(w) + '> "t")\n']),
+    'link-title': ('[a](</u> "t")\n', (0, 0), lambda t, w: setattr(t, 'title', w), lambda w: _no(w, '\n'), lambda w: ['[a](</u> "' + _esc(w) + '")\n']),
+    'image-src': ('![a](</u> "t")\n', (0, 0), lambda t, w: setattr(t, 'src', w), lambda w: _no(w, '\n'), lambda w: ['![a](<' + _esc(w) + '> "t")\n']),
+    'image-title': ('![a](</u> "t")\n', (0, 0), lambda t, w: setattr(t, 'title', w), lambda w: _no(w, '\n'), lambda w: ['![a](</u> "' + _esc(w) + '")\n']),
+    'autolink': ('<http://a>\n', (0, 0), _set_autolink, lambda w: _nospace(w) and _no(w, '<>'), lambda w: ['<http://a' + w + '>\n']),
+    'html-block': ('<div>\nx\n</div>\n', (0, 0), lambda t, w: setattr(t, 'content', '<div>\nx' + w + '\n</div>'), lambda w: _no(w, '\n'),
+                   lambda w: ['<div>\nx' + w + '\n</div>\n']),
+    'math': ('$x$ b\n', (0, 0), lambda t, w: setattr(t, 'content', '$x' + w + '$'), lambda w: _no(w, '$\n'), lambda w: ['$x' + w + '$ b\n']),
+}
+T4_ONLY = {'math': ('LaTeX', 'MathJax')}
+
+
+T4_SLOW = {('cell-text', 'Markdown')}
+
+
+def _t4_jobs(names, ks, opts=None, slow=False):
+    out = []
+    for h in sorted(T4_HOLES):
+        for r in names:
+            if h in T4_ONLY and r not in T4_ONLY[h]:
+                continue
+            for k in ks:
+                if (h, r) in T4_SLOW and k > 0 and not slow:
+                    continue            # padding a table column to the width of symbolic text: left to the thorough tier
+                j = {'hole': h, 'r': r, 'k': k}
+                if opts:
+                    j['opts'] = opts
+                if j not in out:
+                    out.append(j)
+    return out
+
+
+def t4_deliverable(c1, c2, c3):
+    return T4_HOLES[P('hole')][3](S(P('k'), c1, c2, c3))
+
+
+def _t4_kwargs(kind, b1, b2, b3, L, depth):
+    kw = {}
+    if kind in ('html', 'toc', 'pyg'):
+        kw = {'html_escape_double_quotes': b1, 'html_escape_single_quotes': b2, 'process_html_tokens': b3}
+    if kind == 'toc':
+        kw.update(depth=depth, omit_title=b1)
+    if kind == 'pyg':
+        kw.update(fail_on_unsupported_language=b2)
+    if kind == 'md':
+        kw = {'max_line_length': L if b1 else None, 'normalize_whitespace': b2}
+    return kw
+
+
+def t4_replay(c1, c2, c3, b1, b2, b3, L, depth, unknown):
+    """through the public API only: some text that delivers the attribute value makes the renderer raise"""
+    from mistletoe import Document
+    w = S(P('k'), c1, c2, c3)
+    skeleton, path, setter, deliverable, texts = T4_HOLES[P('hole')]
+    if not deliverable(w):
+        return False, 'pre-condition false for %r' % w
+    cls, kind = renderer_table()[P('r')]
+    kw = _t4_kwargs(kind, b1, b2, b3, L, depth)
+    seen = []
+    for text in texts(w):
+        try:
+            with cls(**kw) as r:
+                out = r.render(Document(text))
+            seen.append((text, 'ok'))
+        except Exception as e:
+            if kind == 'pyg':
+                continue        # Pygments itself is outside the claim (stubbed in the lemma)
+            return True, '%s(**%r).render(Document(%r)) raised %s: %s' % (cls.__name__, kw, text, type(e).__name__, e)
+    return False, 'no text delivering %r raised: %r' % (w, seen)
+
+
+@lemma('T4.render-attrs', 'C01', quick=_t4_jobs(MAIN, [2], opts='default'),
+       thorough=_t4_jobs(MAIN, [2], opts='default') + _t4_jobs(RENDERERS, [0, 1, 2], slow=True) + [dict(j, timeout=3000) for j in _t4_jobs(MAIN, [3], slow=True)], timeout=600, per_path=60, replay=t4_replay,
+       stubs=['urllib.parse.quote -> contract stub', 'pygments -> stubs', 'concrete skeleton parsed natively, one attribute replaced by the symbolic string'],
+       covers=['base_renderer.py:BaseRenderer.render', 'base_renderer.py:BaseRenderer.render_inner'],
+       note='every string attribute a renderer reads (text in six contexts, code content, fence language, link / image target and title, autolink, HTML block, math) '
+            'takes any k-character value the parser can deliver for it (Σmd; per-attribute exclusions in T4_HOLES); the renderer returns a str. '
+            'Counterexamples are replayed through Document(text) only')
+def t4_render_attrs(c1: int, c2: int, c3: int, b1: bool, b2: bool, b3: bool, L: int, depth: int, unknown: bool) -> bool:
+    """
+    pre: all_ok(cp_md, P('k'), c1, c2, c3) and t4_deliverable(c1, c2, c3) and L >= 1 and default_opts(b1, b2, b3, unknown)
+    post: _
+    """
+    from mistletoe import Document
+    from vfy.lemma import untraced
+    install_quote()
+    stub_pygments(unknown)
+    w = S(P('k'), c1, c2, c3)
+    skeleton, path, setter, deliverable, texts = T4_HOLES[P('hole')]
+    cls, kind = renderer_table()[P('r')]
+    with cls(**_t4_kwargs(kind, b1, b2, b3, L, depth)) as r:
+        with untraced():
+            doc = Document(skeleton)
+        t = doc
+        for i in path:
+            t = t.children[i]
+        setter(t, w)
+        try:
+            out = r.render(doc)
+        except Exception as e:
+            if kind == 'pyg' and b2 and type(e).__name__ == 'ClassNotFound':
+                return True
+            raise
+    return isinstance(out, str)
+
+
 def witness_empty_quote():
     """(fixed) JiraRenderer / XWiki20Renderer raised IndexError on an empty block quote or list item"""
     import mistletoe
